@@ -47,7 +47,6 @@ PROPS = {
             # values, the bytes QueryProp returns decode back to them and determine them (content below 2^200 bytes)
             "CV.Govshuttle.abiOf_hasTy_iff", "CV.Govshuttle.abiOf_injective", "CV.Govshuttle.query_bytes_roundtrip",
             "CV.Govshuttle.stored_bytes_determine_proposal", "CV.Govshuttle.encode_length_le", "CV.Govshuttle.queryBytes_length_lt",
-            "CV.Govshuttle.query_bytes_roundtrip'", "CV.Govshuttle.stored_bytes_determine_proposal'",
             "CV.Govshuttle.built_proposals_abiWF", "CV.Govshuttle.accepted_answer_abiWF",
             "CV.Govshuttle.storeWF_step", "CV.Govshuttle.storeWF_run", "CV.Govshuttle.query_eq_slot",
             "CV.Govshuttle.monitors_hold_ok", "CV.Govshuttle.monitors_hold_rej",
